@@ -248,6 +248,7 @@ class MemTransport(asyncio.Transport):
         self.peer = None
         self.name = name
         self.fail_writes = False       # fault: connection reset on next write
+        self.rst_after_close = False   # fault: a write after the peer has closed is answered with RST
 
     def set_protocol(self, p):
         self._protocol = p
@@ -265,7 +266,11 @@ class MemTransport(asyncio.Transport):
             self._loop.call_soon(self._lost, ConnectionResetError("Connection reset by peer (mem)"))
             return
         if self.peer is not None and self.peer._closing:
-            return      # like the first TCP write after the peer has gone: accepted locally, never delivered
+            if self.rst_after_close:
+                # the peer's kernel answers the write with RST and it arrives before we close: observed with
+                # real processes that die with unread data pending (C14 real-process tier under load)
+                self._loop.call_soon(self._lost, ConnectionResetError("Connection reset by peer (mem)"))
+            return      # else: like the first TCP write after the peer has gone: accepted locally, never delivered
         self._peer_reader.feed_data(bytes(data))
 
     def _lost(self, exc):
@@ -427,7 +432,7 @@ class ScriptedSim(mosaik_api_v3.Simulator):
             tr.close()
             raise asyncio.CancelledError()       # the simulator process is gone
         if kind == "reset" and tr is not None:
-            tr.peer.fail_writes = True           # mosaik's next write to us fails
+            tr.peer.rst_after_close = True       # mosaik's next write to the dead process is answered with RST
             tr.close()
             raise asyncio.CancelledError()
         raise InjectedFault(f"injected failure in {self.sid}")
